@@ -2,8 +2,8 @@
    harness/cmd/avfscheck/subview.go runs on MemFS, on the extracted world model.
    case line:   sv <umask> <twin|links> | op | op ...   (views and handles are named by explicit ids:
                 "SB v path newid", "OP v path flag perm newhid")
-   output line: <result> T=ok I=<id:uid:gid:admin:umask:cwd,...> C=ok #<digest> | ...
-   T (twin run) and C (confinement) are checks the harness makes on the implementation; the model's
+   output line: <result> T=ok I=<id:uid:gid:admin:umask:cwd,...> C=ok F=ok #<digest> | ...
+   T (twin run), C (confinement) and F (frame) are checks the harness makes on the implementation; the model's
    line says "ok" for both, so that a failed check shows as a differing line. *)
 open Conv
 open Model
@@ -26,7 +26,7 @@ let run () =
              Hashtbl.replace vmap 0 0;
              let order = ref [0] in
              let outs = ref [] in
-             let suffix w' = " T=ok I=" ^ show_views w' !order vmap ^ " C=ok" ^ Drv_fs.show_snap "md5" w' in
+             let suffix w' = " T=ok I=" ^ show_views w' !order vmap ^ " C=ok F=ok" ^ Drv_fs.show_snap "md5" w' in
              (try
                List.iter (fun o ->
                  let toks = split_ws o in
